@@ -275,6 +275,39 @@ fn c08_from_txin_views() {
     fgt(i);
 }
 
+//@ harness: c08_issuance_view_commitment_wins class=F tier=quick timeout=900
+//@ clause: the issuance a PSET input shows (and extract_tx / unique_id therefore use) is a function of its fields in which a commitment takes precedence over the explicit amount: adding the explicit issuance amount or inflation keys next to their commitments (what the explicit-value proof fields accompany) changes nothing; without a commitment the explicit value is shown; with neither, Null
+#[kani::proof]
+#[kani::stub(zffi::secp256k1_pedersen_commitment_parse, model_pedersen_commitment_parse)]
+#[kani::stub(zffi::secp256k1_pedersen_commitment_serialize, model_pedersen_commitment_serialize)]
+fn c08_issuance_view_commitment_wins() {
+    let mut i = Input::default();
+    let amt: Option<u64> = kani::any();
+    let keys: Option<u64> = kani::any();
+    let has_ac: bool = kani::any();
+    let has_kc: bool = kani::any();
+    let ac = any_pedersen();
+    let kc = any_pedersen();
+    i.issuance_value_amount = amt;
+    i.issuance_inflation_keys = keys;
+    i.issuance_value_comm = if has_ac { Some(ac) } else { None };
+    i.issuance_inflation_keys_comm = if has_kc { Some(kc) } else { None };
+    let got = i.asset_issuance();
+    kani::cover!(has_ac && amt.is_some());
+    kani::cover!(!has_kc && keys.is_some());
+    match got.amount {
+        confidential::Value::Confidential(c) => assert!(has_ac && c == ac, "commitment shown iff present"),
+        confidential::Value::Explicit(x) => assert!(!has_ac && amt == Some(x), "explicit amount shown only without a commitment"),
+        confidential::Value::Null => assert!(!has_ac && amt.is_none()),
+    }
+    match got.inflation_keys {
+        confidential::Value::Confidential(c) => assert!(has_kc && c == kc, "commitment shown iff present"),
+        confidential::Value::Explicit(x) => assert!(!has_kc && keys == Some(x), "explicit keys shown only without a commitment"),
+        confidential::Value::Null => assert!(!has_kc && keys.is_none()),
+    }
+    fgt(i);
+}
+
 //@ harness: c08_roundtrip_1in_1out class=B tier=thorough bound="1 input, 1 output; vout < 2^30; empty script_sig / script witness / script_pubkey (non-empty ones: c08_roundtrip_1in_1out_scripts), no pegin witness; issuance none/explicit amount/explicit keys (symbolic), null issuance has zero nonce+entropy; output explicit value+asset, Null nonce, 2-byte script; no range/surjection proofs" timeout=3000
 //@ clause: converting a well-formed transaction to a PSET and extracting it again returns the identical transaction; pegin/issuance flags are folded into previous_output_index and stripped again (outputs restricted to Null nonce — the nonce of an unblinded output is a known finding, isolated below)
 #[kani::proof]
